@@ -126,6 +126,7 @@ def run(shard, rec, tier, seed):
         rec.sample({"long_history_requests": n})
     else:
         rng = random.Random("C13-rand-%d-%d" % (seed, shard["part"]))
+        faulty_histories(rec, PS, ss, rng, max(50, shard["n"] // 10))
         for _ in range(shard["n"]):
             L = rng.randrange(1, 300)
             pset = rng.choice([0.05, 0.2, 0.5, 0.9])
@@ -140,6 +141,59 @@ def run(shard, rec, tier, seed):
             replay(rec, PS, ss, h, rng.choice([0, 0, 5, 1757, 10 ** 9, -4, -13]))
             rec.case(h, nontrivial=any(o[0] == "next" for o in h))
         rec.sample({"history": h[:12], "length": len(h)})
+
+
+class _Boom(Exception):
+    pass
+
+
+def raising_start(ss, fail_times):
+    """A SequenceStart whose value raises for the first `fail_times` reads, then is 77."""
+    state = {"n": fail_times}
+
+    class Flaky(ss.SequenceStart):
+        @property
+        def value(self):
+            if state["n"] > 0:
+                state["n"] -= 1
+                raise _Boom("start value unavailable")
+            return 77
+    return Flaky()
+
+
+def faulty_histories(rec, PS, ss, rng, n):
+    """Requests that fail (the start in force cannot be read) return nothing, so they do not count:
+    the k-th *returned* number is still start + k mod 10."""
+    for _ in range(n):
+        seq = PS(ss.SequenceStart.zero())
+        sv, k = 0, 0
+        hist = []
+        for _step in range(rng.randrange(5, 60)):
+            r = rng.random()
+            if r < 0.15:
+                fails = rng.randrange(1, 4)
+                seq.set_sequence_start(raising_start(ss, fails))
+                sv = 77
+                hist.append(("set-flaky", fails))
+            elif r < 0.3:
+                v = rng.randrange(0, 1757)
+                seq.set_sequence_start(ss.AccountReplySequenceStart.from_value(v))
+                sv = v
+                hist.append(("set", v))
+            else:
+                try:
+                    got = seq.next_sequence()
+                except _Boom:
+                    hist.append(("next-failed",))
+                    rec.count("failed-requests")
+                    continue
+                hist.append(("next", got))
+                rec.count("lockstep-next")
+                if got != sv + k % 10:
+                    rec.violation("lockstep-after-failed-request", "returned value #%d is %r, expected %d + %d (failed requests must not consume a counter step): %r" % (k, got, sv, k % 10, hist[-8:]), {"history": hist})
+                    break
+                k += 1
+        rec.case(("faulty", tuple(map(str, hist))))
 
 
 def make_start(ss, kind, v):
